@@ -378,16 +378,18 @@ class C14(Prop):
         "combine_sum_conserves_optional", "rebin_then_combine_conserves", "hist_rebin_combine_conserves")]
     PARTIAL = {}
     RULE = ("case kinds: coll (rows from/to/cycles or range/mean; derived quantities; scale/shift by scalar, numpy scalar, 0-d array, one value per cycle as ndarray / list, or Series; source collective and operand unchanged afterwards, the same call twice on the same object gives the same result), "
-            "hist (range_histogram / histogram / recorder histogram with edges, class count as int / numpy integer / 0-d array, [ex, ey] / [nx, ny], IntervalIndex/IntervalArray, intervals from two edge arrays whose shared edges differ in the last bit "
-            "(right- or left-closed, with gaps/overlaps: must be rejected), one class, zero-width class, values exactly on edges or one ulp "
+            "hist (range_histogram / histogram / recorder histogram with edges, class count as int / numpy integer / 0-d array, [ex, ey] / [nx, ny], IntervalIndex/IntervalArray right- or left-closed, intervals from two edge arrays whose shared edges differ in the last bit "
+            "(iv2: must be ACCEPTED as a gap-free binning, /repo 4183ee2), interval bins with real gaps / overlaps (iv_gap / iv_overlap: must be "
+            "rejected with ValueError, /repo 5cb9f77), one class, zero-width class, values exactly on edges or one ulp "
             "beside them, extra index levels in any order, unnamed level, axis = any level or None, recording in chunks), lh (LoadHistogram "
             "range/mean and from/to matrices: mids / left / right class location, scale, shift by scalar or Series, R, amplitude_histogram, "
             "cumulated_range), rebin (arbitrary source classes incl. zero width, int64 contents -> breaks incl. repeated breaks / class count "
-            "(int, numpy integer) / single interval / invalid binnings; twice, second target arbitrary / coarsening the first), rebin2d (two "
+            "(int, np.int64 / np.int32; a 0-d array count = refused with TypeError or the same as the int, oracle only) / single interval / invalid binnings; twice, second target arbitrary / coarsening the first), rebin2d (two "
             "interval levels, NaN contents, nan_default, third non-interval level, class count), combine (sum/min/max/mean, int64 and float "
-            "mixed, level order permuted), combine2d (combination of two-level histograms, NaN contents, level order swapped / rows reversed; oracle only), pipe (re-bin to a "
+            "mixed, level order permuted), combine2d (combination of two-level histograms, NaN contents, level order swapped / rows reversed, level names both given / one or both "
+            "unnamed / the same name twice; oracle only), pipe (re-bin to a "
             "common binning + combine, NaN), chain (collective -> range_histogram -> re-bin -> "
-            "combine).  All numbers dyadic so that + - x are exact; model lines are compared bit-exactly except the lines of the kinds "
+            "combine; optionally every histogram's class level renamed to None / 'x': index_name).  All numbers dyadic so that + - x are exact; model lines are compared bit-exactly except the lines of the kinds "
             "rebin / rebin2d / combine / pipe / chain (1e-12 relative to the largest magnitude on the line, summation order).  "
             "non-trivial = at least one non-empty class / a derived quantity that is not zero; distinct by full case")
     ASSUMPTIONS = [
@@ -403,8 +405,10 @@ class C14(Prop):
         "NaN contents are modelled as absent contents (Option; skipped by sums as pandas' groupby-sum / Series.sum do), nan_default=True as "
         "'no occupied source class overlaps'; aggregations other than sum (min/max/mean), the combination of two-level histograms, "
         "two-level re-binning with NaN contents / an integer class count / a third non-interval level, LoadHistogram with a Series operand "
-        "or the left/right class location, interval bins with gaps or overlaps (must be rejected), invalid re-bin targets, a numpy integer "
-        "as class count, amplitude_histogram, cumulated_range, the recorder's histogram_numpy and 'inputs unchanged / asking again gives "
+        "or the left/right class location, interval bins with gaps or overlaps (must be rejected), invalid re-bin targets, a re-bin class "
+        "count given as a 0-d array (count0d) or as the legacy np.int64 target (npcount) - class counts given as np.int64 / np.int32 / 0-d array "
+        "to the histograms and as np.int64 / np.int32 to rebin_histogram DO go through the model lines rhistn / hist2n / fthistn / rebinn (the "
+        "line carries the integer) -, amplitude_histogram, cumulated_range, the recorder's histogram_numpy and 'inputs unchanged / asking again gives "
         "the same answers' are checked by the oracle only; LoadHistogram.scale with a negative factor is rejected by "
         "pandas (left > right); the state of accessor objects is not modelled (every case builds fresh objects)",
         "the pandas interval labels '(a, b]' of a histogram are labels only; class membership follows numpy's rule (a <= v < b, last class "
@@ -415,6 +419,11 @@ class C14(Prop):
         "middle binning B strictly increasing, and either B covers the source and refines it (rebin_compose_of_refines, "
         "rebin_compose_of_breaks_subset) or every break of the last binning is a break of B (rebin_compose_of_target_coarsens).  Reading "
         "'and composes' as 'totals compose' is an INTERPRETATION of the property text, not a finding against the code",
+        "two fixed classes recorded in KNOWN_FINDINGS.jsonl - combine-unnamed-levels (/repo cdc99ee, regression of d0db0a6) and "
+        "interval-bins-last-bit (/repo 4183ee2, regression of 5cb9f77) - are labels of the record only: no clause of this oracle emits them.  "
+        "Their inputs are generated (combine2d with unnamed / twice-named levels; hist bins `iv2`), but a recurrence would be reported under the "
+        "generic classes combine-error (combine_histogram raises) and histogram-error (histogram / range_histogram raises), i.e. as a NEW "
+        "failure that the recorded classes do not cover",
     ]
     PARALLEL = 8          # impl_lines / oracle are sharded over forked processes by core.pmap
 
@@ -774,7 +783,7 @@ class C14(Prop):
         if tk == "count":
             case["target"] = {"t": "count", "n": rng.choice([1, 1, 2, 3, 7]), "as": rng.choice(["int", "int", "np64", "np32"])}
             if rng.random() < 0.1:
-                case["target"] = {"t": "count0d", "n": case["target"]["n"]}     # a 0-d array is not an int for rebin_histogram: oracle only
+                case["target"] = {"t": "count0d", "n": case["target"]["n"]}     # a 0-d array: refused (TypeError) or taken as the class count (since /repo 4183ee2); oracle only
         elif tk == "invalid":
             e = sorted({lo - 1.0, lo, (lo + hi) / 2, hi, hi + 1.0, hi + 2.0})
             ivs = [[e[i], e[i + 1]] for i in range(len(e) - 1)]
